@@ -342,3 +342,59 @@ def run(F, R, tier):
         r6.require(any("untagged" in x for x in a["attrs"]), (MREF, "untagged"), "MethodRef is not #[serde(untagged)]")
         r6.require(names == ["Embed", "Refer"], (MREF, "variant-order"), "MethodRef variants must be tried as Embed then Refer: %s" % names)
     r6.floor(10)
+
+    # ------------------------------------------------------------------ R7 resolution semantics
+    r7 = R.rule("C04-R7", "T4+T3", "resolve_method(query, scope): scoped → that collection only; unscoped → first hit in the five relationship sets (in order), else the general-purpose "
+                "methods; an embedded hit is returned itself, a reference hit resolves to the general-purpose method with the *referenced* id")
+    for fname, qpat in (("resolve_method", r"Queryable.*::query$"), ("resolve_method_mut", r"Queryable.*::query_mut$")):
+        fn = CD + "::" + fname
+        if not r7.anchor(F.hir(fn), fn):
+            continue
+        tab = SR.Table(F, fn, opaque=r"Queryable.*::query(_mut)?$", rule=r7, max_paths=4000)
+        ps_ = [p_.get("name") for p_ in F.hir(fn).get("params", []) if p_.get("k") == "bind"]
+        Q0 = SR.param(ps_[1] if len(ps_) > 1 else "query")      # the query parameter, whatever it is called
+        n_ref = n_emb = n_gp = 0
+        order_seen = set()
+        for q in tab.paths:
+            scope = SR.variant(q, SR.param("scope"))
+            qs = [e for e in q.events if e.kind == "call" and re.search(r"Queryable.*::query(_mut)?$", e.fn or "")]
+            colls = []
+            for e in qs:
+                t0 = SY.term(e.args[0])
+                c_ = [u[2] for u in SY.subterms(t0) if isinstance(u, tuple) and u[:1] == ("field",) and u[2] in GUARDED]
+                colls.append(c_[0] if c_ else "?")
+            hit = None
+            for e, c_ in zip(qs, colls):
+                if c_ in REL_FIELDS:
+                    r7.require(SR.pure(e.args[1], Q0, conv=re.compile(r"(clone|into|from|as_ref|borrow)$")), (fn, "query-arg", c_), "%s is not queried with the caller's query" % c_)
+                    if q.succeeded(e) is True:
+                        hit = (e, c_)
+                        break
+            if scope == "None" or scope is None:
+                probed = [c_ for c_ in colls if c_ in REL_FIELDS]
+                order_seen.add(tuple(probed))
+                r7.require(probed == REL_FIELDS[:len(probed)], (fn, "order"), "relationship sets are not probed in the order %s: %s" % (REL_FIELDS, probed))
+            if hit is None:
+                if (scope == "None" or scope is None) and len([c_ for c_ in colls if c_ in REL_FIELDS]) == 5:
+                    gp = [e for e, c_ in zip(qs, colls) if c_ == "verification_method"]
+                    if r7.require(len(gp) == 1 and SR.pure(gp[0].args[1], Q0, conv=re.compile(r"(clone|into|from|as_ref|borrow)$")) and SR.derives(q.ret, gp[0].result.t), (fn, "fallback"),
+                                  "with no relationship hit the result is not verification_method.query(query)"):
+                        n_gp += 1
+                continue
+            e, c_ = hit
+            entry = ("payload", e.result.t, q.variant.get(e.result.t) or "Some", 0)   # `?` on an opaque Option may be recorded as Ok/Err
+            kind = q.variant.get(entry)
+            if kind == "Embed":
+                n_emb += 1
+                r7.require(SR.derives(q.ret, ("payload", entry, "Embed", 0)), (fn, "embedded"), "an embedded hit in %s is not returned itself" % c_)
+            else:
+                gp = [x for x, cc in zip(qs, colls) if cc == "verification_method" and qs.index(x) > qs.index(e)]
+                refid = ("payload", entry, "Refer", 0)
+                cv = re.compile(r"(clone|into|from|as_ref|borrow|to_string|as_str|to_owned|deref)$")
+                ok = len(gp) == 1 and SR.pure(gp[0].args[1], refid, conv=cv) and not SR.pure(gp[0].args[1], Q0, conv=cv) and SR.derives(q.ret, gp[0].result.t)
+                if r7.require(ok, (fn, "reference-resolution"), "a reference hit in %s is not resolved to verification_method.query(<the referenced id>): %s" % (
+                        c_, [SY.fmt(SY.term(x.args[1]))[:80] for x in gp])):
+                    n_ref += 1
+        r7.site("%s: %d embedded-hit, %d reference-hit and %d fallback path(s) checked" % (fname, n_emb, n_ref, n_gp))
+        r7.require((n_emb >= 5 and n_ref >= 5 and n_gp >= 1) or not tab.paths, (fn, "coverage"), "resolution does not cover the five relationship sets (embedded %d, reference %d, fallback %d)" % (n_emb, n_ref, n_gp))
+    r7.floor(2)
